@@ -173,14 +173,14 @@ Qed.
 (* SEGMENTATION INDEPENDENCE: the server, woken once per message in the order [map fst evs], on
    transports that carry (in any segmentation, with EINTRs) each socket's messages followed by
    [rest k], does exactly what the abstract run over the messages does *)
-Theorem serve_roundtrip : forall evs tm s (rest : N -> bytes),
+Theorem serve_roundtrip : forall fx evs tm s (rest : N -> bytes),
   forallb (fun e => wf_msg (snd e)) evs = true ->
   (forall k, good (tm k) = true) ->
   (forall k, bytes_of (tm k) = stream_of k evs ++ rest k) ->
-  match run evs s with
-  | Some s' => exists tm', serve (map fst evs) tm s = Some (s', tm') /\
+  match run fx evs s with
+  | Some s' => exists tm', serve fx (map fst evs) tm s = Some (s', tm') /\
                            forall k, good (tm' k) = true /\ bytes_of (tm' k) = rest k
-  | None => serve (map fst evs) tm s = None
+  | None => serve fx (map fst evs) tm s = None
   end.
 Proof.
   induction evs as [|[k m] r IH]; intros tm s rest W G B.
@@ -189,7 +189,7 @@ Proof.
     assert (Bk := B k). rewrite stream_of_cons_same, <- app_assoc in Bk.
     destruct (handle_msg m (tm k) _ Wm (G k) Bk) as [t' [H [G' B']]].
     cbn [run map fst serve]. rewrite H.
-    destruct (apply k (action_of m) s) as [s1|]; [|reflexivity].
+    destruct (apply fx k (action_of m) s) as [s1|]; [|reflexivity].
     apply IH; auto.
     + intros k'. unfold tm_set. destruct (k' =? k); auto.
     + intros k'. unfold tm_set. destruct (k' =? k) eqn:E.
@@ -220,3 +220,24 @@ Proof.
 Qed.
 Lemma segment_ok sched b : bytes_of (segment sched b) = b /\ good (segment sched b) = true.
 Proof. apply cut_ok. Qed.
+
+(* ------------------------------------------------------------------ "whatever the sizes involved": the limit *)
+(* msg.len is unsigned on the wire but the receiver passes it on as `int len`: a message that announces 2^31 bytes
+   or more (a trace buffer or metadata file of 2 GiB) makes `uftrace recv` exit, whatever follows on the stream *)
+Lemma length_limit t ty len rest : good t = true -> bytes_of t = msg_hdr ty len ++ rest ->
+  ty < 65536 -> INT_LIMIT <= len -> len < 4294967296 ->
+  match classify ty with KEnd | KOther => True | _ => handle_client_sock t = Died end.
+Proof.
+  intros G B Ht L1 L2.
+  destruct (read_all_app t _ _ G B) as [t1 [R [B1 G1]]]. rewrite msg_hdr_length in R.
+  destruct (hdr_fields ty len Ht L2) as [Hm [Hty Hl]].
+  assert (Big : (INT_LIMIT <=? len) = true) by (apply N.leb_le; exact L1).
+  unfold handle_client_sock. rewrite R, Hm, Hty, Hl, N.eqb_refl. cbn [negb].
+  destruct (classify ty); try exact I.
+  - unfold recv_dir_name. rewrite Big. reflexivity.
+  - unfold recv_numbered. destruct (read_all t1 4) as [[x t2]|]; [rewrite Big|]; reflexivity.
+  - unfold recv_numbered. destruct (read_all t1 4) as [[x t2]|]; [rewrite Big|]; reflexivity.
+  - unfold recv_numbered. destruct (read_all t1 4) as [[x t2]|]; [rewrite Big|]; reflexivity.
+  - unfold recv_info. destruct (read_all t1 HDR) as [[x t2]|]; [rewrite Big|]; reflexivity.
+  - unfold recv_metadata. destruct (read_all t1 4) as [[x t2]|]; [rewrite Big|]; reflexivity.
+Qed.
